@@ -157,6 +157,43 @@ def real_check(grid):
     return out
 
 
+ENVPARSE = r'''
+import json, os, sys, types
+import loky.process_executor as pe
+# the limit as the module read it from the environment, and the admission decisions it leads to (the variable is only substituted,
+# the limit is the one parsed at import)
+out = {"env": os.environ.get("LOKY_MAX_DEPTH"), "max_depth": pe.MAX_DEPTH, "admits": {}}
+for d in (0, 1, 2, 9, 10, 11, 40):
+    pe._CURRENT_DEPTH = d
+    try:
+        pe._check_max_depth(types.SimpleNamespace(get_start_method=lambda: "loky"))
+        out["admits"][str(d)] = True
+    except pe.LokyRecursionError:
+        out["admits"][str(d)] = False
+print(json.dumps(out))
+'''
+
+
+def env_parse(ctx):
+    """LOKY_MAX_DEPTH as each process parses it at import: the limit must be int(value) -- negative and zero mean unlimited"""
+    vals = ["-1", "0", "1", "3", "10", "-7"] if ctx.tier == "quick" else ["-1", "0", "1", "2", "3", "10", "11", "-7", "-100", "25"]
+    bad, seen = [], []
+    for v in vals:
+        res = runner.run_script(ENVPARSE, vlib.REPO, env={"LOKY_MAX_DEPTH": v}, timeout=60)
+        got = runner.last_json(res)
+        M = int(v)
+        want = {str(d): (M <= 0 or d < M) for d in (0, 1, 2, 9, 10, 11, 40)}
+        ok = got is not None and got["max_depth"] == M and got["admits"] == want
+        seen.append({"LOKY_MAX_DEPTH": v, "ok": ok})
+        if not ok:
+            bad.append({"LOKY_MAX_DEPTH": v, "expected_limit": M, "expected_admissions_by_depth": want, "got": got, "stderr": res["stderr"][-400:]})
+    if bad:
+        rp = vlib.write_replay(ctx, "envparse", {"kind": "the limit parsed from LOKY_MAX_DEPTH, or the admissions it leads to, deviate", "cases": bad})
+        ctx.violations.append((f"LOKY_MAX_DEPTH={bad[0]['LOKY_MAX_DEPTH']}: limit read as {bad[0]['got'] and bad[0]['got']['max_depth']}, "
+                               f"admissions {bad[0]['got'] and bad[0]['got']['admits']}", rp, False))
+    return seen
+
+
 def expected_chain(MAX, maxlevel, method):
     """what the property predicts for the nested probe"""
     def lvl(level):
@@ -199,6 +236,7 @@ def run(ctx):
                                                            "cases": [grid[i] for i in idx[:5]], "coq": out[-500:]})
             if not fails:
                 ctx.violations.append(("model/implementation correspondence broken", rp, True))
+    envs = env_parse(ctx)
     # real processes: nesting to MAX+1, reuse / respawn / resize
     plans = [(2, "loky")] if ctx.tier == "quick" else \
         [(1, "loky"), (2, "loky"), (3, "loky"), (0, "loky"), (-1, "loky_init_main"), (2, "spawn"), (3, "fork"), (0, "fork")]
